@@ -847,11 +847,11 @@ func pkceTableTransform(c *km.Ctx, k km.Conj, o ssa.Value, vf *ssa.Function) (*s
 			rv := km.Unwrap(km.ReturnValues(ret)[0])
 			switch key {
 			case "", "plain":
-				if rv != ssa.Value(fn.Params[0]) {
+				if rv != ssa.Value(km.ParamAt(fn, 0)) {
 					return nil, "transform for method " + key + " is not the identity", false
 				}
 			case "S256":
-				if !isS256Of(rv, fn.Params[0]) {
+				if !isS256Of(rv, km.ParamAt(fn, 0)) {
 					return nil, "transform for S256 is not base64url(sha256(verifier))", false
 				}
 			default:
